@@ -44,6 +44,7 @@ def run(prog, rep, tier='quick'):
     rep.rule('wiring', 'CORRELATION(x, maxlags=order, norm=norm) -> LEVINSON(r) -> returned triple; norm biased by default')
     rep.rule('buffers', 'no two element-stored arrays share one allocation')
     rep.rule('admission', 'no guard on (N, order) raises on the grid N=3..9, order=1..N-1 (aryule and everything it calls)')
+    seen_gb = set()
     rep.rule('lpc', 'fft length argument of nextpow2 >= 2*len(x)-1; LEVINSON(R, N) with R real')
     rep.rule('scaling', 'a, k: s=0 ; rho: s=2')
     seen = set()
@@ -78,6 +79,14 @@ def run(prog, rep, tier='quick'):
             n_w += 1
             if blocked(rep, 'wiring', ary.qname, ctx, itp):
                 continue
+            gb = [e for e in itp.events if e[0] == 'guard-break' and e[4] in (lev.qname, cor.qname, ary.qname) and 'x' in e[3]]
+            for e in gb[:1]:
+                key = ('full-order', e[4], normalise(e[1].test))
+                if key not in seen_gb:
+                    seen_gb.add(key)
+                    rep.violation('wiring', e[4], 'if %s: %s' % (normalise(e[1].test)[:50], e[2]), 'the recursion is left on a condition computed '
+                                  'from the data: the orders after that point are never processed, so the model does not match the first '
+                                  'p+1 autocorrelation lags [%s]' % ctx, loc(e[4].split('.')[0], e[1]))
             cc, lc = itp.watch[cor.qname], itp.watch[lev.qname]
             bad = []
             if len(cc) != 1 or len(lc) != 1:
